@@ -11,6 +11,8 @@ mod gen_types;
 mod rng;
 mod sexp;
 mod watch;
+#[cfg(all(agdb_verif, feature = "h1_multimap"))]
+mod omaprun;
 #[cfg(agdb_verif)]
 mod walrun;
 
@@ -111,6 +113,20 @@ fn main() {
             for h in 0..n {
                 let mut hr = r.fork();
                 dbrun::run_history(&mut hr, &opts, &mut o, h);
+            }
+            write_lines(&format!("{}/cases.txt", out), &o.cases);
+            write_lines(&format!("{}/impl.txt", out), &o.imp);
+            write_lines(&format!("{}/oracle.txt", out), &o.oracle);
+            write_stats(&format!("{}/stats.json", out), &o.stats, o.histories, o.nontrivial, &o.samples);
+        }
+        #[cfg(all(agdb_verif, feature = "h1_multimap"))]
+        "omap" => {
+            let steps: usize = arg(&args, "--steps", "200").parse().unwrap();
+            let mut o = omaprun::Out { cases: vec![], imp: vec![], oracle: vec![], stats: BTreeMap::new(), samples: vec![], nontrivial: 0, histories: 0 };
+            let mut r = rng::Rng::new(seed);
+            for _ in 0..n {
+                let mut hr = r.fork();
+                omaprun::run_history(&mut hr, steps, &mut o);
             }
             write_lines(&format!("{}/cases.txt", out), &o.cases);
             write_lines(&format!("{}/impl.txt", out), &o.imp);
